@@ -740,7 +740,7 @@ func (o Bytes) BinaryOp(tok token.Token, right Object) (Object, error) {
 	case Bytes:
 		switch tok {
 		case token.Add:
-			return append(o, v...), nil
+			return append(o[:len(o):len(o)], v...), nil
 		case token.Less:
 			return Bool(bytes.Compare(o, v) == -1), nil
 		case token.LessEq:
@@ -755,7 +755,7 @@ func (o Bytes) BinaryOp(tok token.Token, right Object) (Object, error) {
 	case String:
 		switch tok {
 		case token.Add:
-			return append(o, v...), nil
+			return append(o[:len(o):len(o)], v...), nil
 		case token.Less:
 			return Bool(string(o) < string(v)), nil
 		case token.LessEq:
